@@ -80,15 +80,17 @@ def gen(chk):
     for which in ("snapshot", "targets", "delegated"):
         for lm in ("exact", -1, 5, {"abs": 0}):
             for cfg in (None, 10, U64):
+              for hm in ("exact", None):          # the pinning entry lists a digest as well, or the length alone
                 s = scen.Scen()
                 d1 = s.targets(version=1, targets=[{"name": "d/x", "content": "x"}], sigs=scen.valid([7]), pad=rng.choice([0, 3000]))
                 tkw = {"delegations": deleg([7], [drole("d1", paths=("d/*",))])}
                 r = s.root()
                 tgt = s.targets(version=1, **tkw)
-                metas = {"targets.json": scen.meta(tgt, 1, lm if which == "targets" else "exact"),
-                         "d1.json": scen.meta(d1, 1, lm if which == "delegated" else "exact")}
+                metas = {"targets.json": scen.meta(tgt, 1, lm if which == "targets" else "exact", hm if which == "targets" else "exact"),
+                         "d1.json": scen.meta(d1, 1, lm if which == "delegated" else "exact", hm if which == "delegated" else "exact")}
                 snap = s.snapshot(version=1, meta=metas)
-                ts = s.timestamp(version=1, meta={"snapshot.json": scen.meta(snap, 1, lm if which == "snapshot" else "exact")})
+                ts = s.timestamp(version=1, meta={"snapshot.json": scen.meta(snap, 1, lm if which == "snapshot" else "exact",
+                                                                             hm if which == "snapshot" else "exact")})
                 files = scen.top_files(False, ts, snap, 1, tgt, 1, delegated=[("d1", 1, d1)])
                 limits = {} if cfg is None else {"snapshot": cfg, "targets": cfg}
                 s.cycle(r, files, limits=limits)
